@@ -26,13 +26,13 @@ PROPS = {
                             "every mutator runs on a freshly obtained view and leaves the other view stale (so its effect is what the other view is recomputed from), overwrite makes the overwritten view the fresh one, "
                             "the two stored views never share message objects; conversions return fresh well-formed sequences (to_relative_sequence / to_absolute_sequence with loop invariants, list.sort by its assumed contract). "
                             "B: the content clause (both views describe the same timed events and duration, conversions lose nothing) by seeded random operation histories compared through an independent timeline oracle.",
-                assumptions=[INTS, SORT, "A: wf-preservation of quantise / quantise_note_lengths / cutoff / merge / normalise_relative / concatenate at the wrapper level (validated by the bounded tier)",
+                assumptions=[INTS, SORT, "A: wf-preservation of quantise / quantise_note_lengths / cutoff / merge / concatenate at the wrapper level (validated by the bounded tier); normalise_relative is verified against the same contract",
                              "generators messages_abs/messages_rel are covered by the bounded tier only"],
                 note="same_view (content equality of the two views) is bounded, not proved"),
     "C16": dict(level="other", bounded=True, technique="contract-based deductive verification of freshness/ownership postconditions of the copy routes + bounded independence histories",
                 explanation="U: Message.copy (fresh object, all fields equal), AbstractSequence.copy (fresh list of fresh, pairwise distinct messages with equal content), Sequence.copy (fresh wrapper, same freshness state, views copied, "
-                            "invariant holds for both, source untouched), for all inputs and all three freshness states. B: Bar/Track/Composition copies, split pieces, bar splitting with either setting, and independence under later operations on either side.",
-                assumptions=[INTS], note="Bar/Track/Composition.copy, split and sequences_split_bars freshness are bounded only so far"),
+                            "invariant holds for both, source untouched), for all inputs and all three freshness states; RelativeSequence.split: every piece, piece list and message in a piece is created by the call and the source is not written (empty modifies clause). B: Bar/Track/Composition copies, split pieces, bar splitting with either setting, and independence under later operations on either side.",
+                assumptions=[INTS], note="Bar/Track/Composition.copy and sequences_split_bars freshness are bounded only so far; RelativeSequence.split pieces are proved fresh, normalise_relative proved to build a fresh list"),
     "C01": dict(level="other", bounded=True, technique="bounded enumeration with an independent note/bar-grid oracle (deductive part so far: binary_insort, used by detokenise)",
                 explanation="B: generated valid pieces (V_strict grid) x random configurations, tokenise -> encode -> decode -> detokenise compared with the piece by an independent oracle. U so far only for binary_insort (ordered insertion used by detokenise).",
                 assumptions=[INTS, STR], note="tokenise/detokenise themselves are not yet under contract; known findings D15, D18"),
@@ -46,8 +46,19 @@ PROPS = {
                 assumptions=[INTS], note="quantise itself is bounded only so far"),
     "C06": dict(level="other", bounded=True, technique="contract-based deductive verification of find_minimal_distance + bounded enumeration with an independent oracle",
                 explanation="U: find_minimal_distance (closest allowed value, earliest on ties). B: allowed durations, fixed onsets, no overlap, no extension, closest fit, removal only when nothing fits.", assumptions=[INTS], note="quantise_note_lengths itself is bounded only so far"),
-    "C07": dict(level="other", bounded=True, technique="exhaustive small-scope enumeration of event strings with an independent open-note automaton", explanation="B: all event strings up to a small length (incl. ill-formed) + seeded random strings.", assumptions=[], note="not yet under contract"),
-    "C08": dict(level="other", bounded=True, technique="bounded enumeration with an independent piano-roll oracle", explanation="B: capacities exact, duration/sound/events conserved, pieces silent at their end, source unchanged, no shared objects.", assumptions=[], note="not yet under contract"),
+    "C07": dict(level="other", bounded=True, technique="contract-based deductive verification of RelativeSequence.normalise_relative (duration, well-formed result, frame; the open-note dict is abstracted) + exhaustive small-scope enumeration with an independent open-note automaton",
+                explanation="U: for every input list (ill-formed ones included) normalise_relative leaves the total duration unchanged (loop invariant: wait sum of the output so far + pending wait buffer = wait sum of the consumed prefix; "
+                            "the unclosed-note clean-up removes only note-ons, lemma wsum_remove), builds a fresh list in which no message object occurs twice, every element is typed and every wait has a non-negative time, "
+                            "and changes no field of any input message nor any other list. The per-(channel,pitch) dict of open notes is an ABSTRACT dict: reads return an arbitrary list of note-ons, so these clauses hold for every dict content. "
+                            "B: alternation per (channel,pitch), dropped repeated signatures, sounding set, idempotence on all event strings up to a small length + seeded random strings.",
+                assumptions=[INTS, "A: abstract-dict model of open_messages (lookups assumed to hit; stored lists are created by the call; refinement 'lists of NOTE_ON messages' checked at every store and in-place mutation)"],
+                note="the alternation / signature / sounding-set clauses depend on the dict content and are bounded only"),
+    "C08": dict(level="other", bounded=True, technique="contract-based deductive verification of RelativeSequence.split (source untouched, pieces built from fresh objects, piece count, termination, no exception) + bounded enumeration with an independent piano-roll oracle",
+                explanation="U: for every sequence and capacity list, split changes no field of any input message and no input list (empty modifies clause, automatic frame obligations through four nested loops), "
+                            "returns at most len(capacities)+1 pieces, every piece / piece list / message in a piece is an object created by the call, the inner loop terminates (variant len(working_memory)), and no None is dereferenced. "
+                            "B: capacities exact, duration/sound/events conserved, pieces silent at their end, on enumerated and random inputs.",
+                assumptions=[INTS, "A: abstract-dict model of open_messages (values are message references; content untracked)"],
+                note="exact capacities and conservation of sound are bounded only"),
     "C09": dict(level="other", bounded=True, technique="bounded seeded exploration with an independent bar-grid and piano-roll oracle", explanation="B: bar counts, bar lengths, carried signature/key, coverage, sounding set, inputs unchanged.", assumptions=[FLOAT], note="not yet under contract"),
     "C10": dict(level="other", bounded=True, technique="contract-based deductive verification of RelativeSequence.pad (used for the exact bar length) + bounded grid over (sequence, signature, key)",
                 explanation="U: pad makes the duration max(old, n) and touches no event. B: Bar construction over a grid of durations / signatures / signature content, exact length in rationals, copy.", assumptions=[FLOAT, INTS], note="Bar.__init__ itself is bounded only so far"),
